@@ -26,6 +26,7 @@ RULE = (
     "numpy.result_type). non-trivial = the input has >= 2 distinct elements and the result differs from the input "
     "in shape or element order."
 )
+LEVEL_TEXT += (" reshape is generated with order C/F and, for strided (F-contiguous) operands, order='A' whose expected order is read off the live operand; integer / numpy-integer shapes of full and full_like; broadcastable (unequal) choices of choose; cyclic axis permutations.")
 ASSUMPTIONS = [
     "numpy's own behaviour on object arrays is the specification of where elements go",
     "a case on which numpy itself rejects the arguments for the object array is discarded and counted",
